@@ -1282,14 +1282,15 @@ def expanded_body(ctx, path):
     cache = prog.__dict__.setdefault("_inl_cache", {})
     saved = cache.pop(path, None)
 
-    def only_private(prog_, callee, into_root):
-        return is_private_helper(spans, callee) and orig(prog_, callee, into_root)
+    def only_private(prog_, callee, into_root, *a, **kw):
+        return is_private_helper(spans, callee) and orig(prog_, callee, into_root, *a, **kw)
     inline.inlinable = only_private
     try:
-        body = inline.inlined(prog, path)
+        body = inline.inlined(prog, path, keep="c12-only-private^")
     finally:
         inline.inlinable = orig
-        cache.pop(path, None)
+        for k in [k for k in cache if isinstance(k, tuple) and k[0] == path and k[1] == "c12-only-private^"]:
+            cache.pop(k, None)
         if saved is not None:
             cache[path] = saved
     if body is not prog.body(path):
